@@ -4,7 +4,7 @@ if [ -n "$(git -C /repo status --porcelain)" ]; then echo "refusing: /repo has u
 rc=0
 for f in /verif/selfmut/*.diff; do
   n=$(basename $f .diff)
-  case $n in m1|m2|m3|m6) p=C17;; m4|m5) p=C16;; w*) p=C04;; r1|r2|r3|r7|r8) p=C05;; r4) p=C03;; r5) p=C16;; r6) p=C04;; r9) p=C17;; n0) p=C10;; n2|n3|n4) p=C14;; *) p=$(grep "^| $n " /verif/selfmut/README.md | awk -F'|' '{gsub(/ /,"",$4); print $4}');; esac
+  case $n in m1|m2|m3|m6) p=C17;; m4|m5) p=C16;; w*) p=C04;; r1|r2|r3|r7|r8) p=C05;; r4) p=C03;; r5) p=C16;; r6) p=C04;; r9) p=C17;; n0) p=C10;; n2|n3|n4|n5|n6) p=C14;; *) p=$(grep "^| $n " /verif/selfmut/README.md | awk -F'|' '{gsub(/ /,"",$4); print $4}');; esac
   git -C /repo apply "$f" || { echo "$n: patch does not apply"; rc=1; continue; }
   out=$(cd /verif && timeout 900 bin/gocv check -p $p 2>&1); code=$?
   git -C /repo apply -R "$f"
